@@ -138,6 +138,10 @@ def ob_nonrigid(ctx, name, D, what, steps=1, stride=None, resize=True):
     g = geom.concrete_grid(D, ctx.seed, 0, align_corners=True, sizes=sizes)
     g2 = geom.concrete_grid(D, ctx.seed, 1, sizes=(4, 4) if D == 2 else (3, 3, 3))
     kw = dict(stride=2) if "FreeForm" in name else {}
+    if what == "disp-other-grid":
+        # the other grid is centred on the transform's grid so that the two domains overlap whatever the seed
+        # (on disjoint domains the resampled field is the padding value and every derivative vanishes: a vacuous pass)
+        g2 = g2.center(g.center())
     if "Velocity" in name:
         kw.update(steps=steps)
     if stride is not None:  # dense field stored on a coarser grid than the transform's own
